@@ -1,5 +1,6 @@
 import Driver.Proto
 import StVerif.Model.FmtRender
+import StVerif.Spec.Render
 
 /-! Driver for the family "fmt" (C10, C11): `fmt route= m= fmt= args= [fr=] => observation` -/
 
@@ -84,6 +85,30 @@ def kindOf (obs : String) : String :=
 def charPadObs : String := "abort assert:" ++ sanitize charPaddingMsg
 def floatBufObs : String := "abort assert:" ++ sanitize floatBufferMsg
 
+/-- bytes of an observed event list `a<hex>,c<cc>x<n>,…` -/
+def obsEventBytes (s : String) : List Nat :=
+  if s == "-" then [] else
+  (s.splitOn ",").flatMap fun t =>
+    if t.startsWith "a" then parseUnits 8 (t.drop 1).toString
+    else if t.startsWith "c" then
+      match (t.drop 1).toString.splitOn "x" with
+      | [cc, n] => List.replicate (n.toNat?.getD 0) (hexToNat cc)
+      | _ => []
+    else []
+
+/-- what the Spec requires the entry point to return for the rendered bytes -/
+def specFinal (entry : Entry) (o : Outcome (List Nat)) : Outcome (List Nat) :=
+  match o with
+  | .ok bytes =>
+    match entry with
+    | .utf8 m => Spec.Unicode.referenceString m bytes
+    | .latin1 => Spec.Unicode.reference .latin1 .utf8 .assumeValid true bytes
+  | .throw e => .throw e
+  | .assertFail w => .assertFail w
+  | .ub w => .ub w
+  | .oob => .oob
+  | .stuck => .stuck
+
 def handle (c : Case) : Verdict :=
   let obs := normObs (obsString c)
   let route := c.get "route"
@@ -96,10 +121,16 @@ def handle (c : Case) : Verdict :=
   let ms :=
     if route == "ev" then fmtOutcome fmtEvents (run fmt args)
     else fmtOutcome (fmtUnits 8) (runFormat entry fmt args)
-  -- C10's judge on the observation: one of the permitted outcomes
-  let permitted :=
-    if fmt.isNone then obs == "throw invalid_argument"
-    else obs.startsWith "ok " || obs == "throw bad_format" || obs == "throw out_of_range" || obs == "throw unicode_error" || obs == charPadObs
+  -- the Spec's answer, independent of the model: rendering of the field grammar over the byte list
+  let specO : Outcome (List Nat) := match fmt with
+    | none => .throw .invalidArgument
+    | some f => Spec.Render.render f args
+  let specS := if route == "ev" then fmtOutcome (fmtUnits 8) specO else fmtOutcome (fmtUnits 8) (specFinal entry specO)
+  -- the observation in the same vocabulary (an event list is judged by the bytes it amounts to)
+  let obsS := if route == "ev" && obs.startsWith "ok " then "ok " ++ fmtUnits 8 (obsEventBytes (obs.drop 3).toString) else obs
+  let isC11 := c.get "p" == "C11"
+  -- C10 judges the kind of outcome (which exception, which assertion); C11 judges the bytes as well
+  let specOk := if isC11 then obsS == specS else kindOf obsS == kindOf specS && (kindOf obsS != "assert" || obsS == specS)
   -- the 64-byte float buffer (defect 13) belongs to C13: the model predicts it, either behaviour is accepted here
   let floatScope := ms == floatBufObs
   -- std::abs of the most negative value (defect 12) belongs to C12
@@ -108,11 +139,16 @@ def handle (c : Case) : Verdict :=
   let nontrivial := match fmt with
     | some f => f.any (fun b => b == 123 || b == 125)
     | none => true
+  let argKind := match args.head? with
+    | some (.sint w _) => s!"i{w}" | some (.uint w _) => s!"u{w}" | some (.char _) => "char" | some (.wchar _) => "wchar"
+    | some (.char8 _) => "c8" | some (.char16 _) => "c16" | some (.char32 _) => "c32" | some (.bool _) => "bool"
+    | some (.str _) => "str" | some .nullStr => "null" | some (.float _) => "float" | none => "none"
   { corr := scope || ms == obs,
-    spec := scope || permitted,
+    spec := scope || specOk,
     model := ms,
-    why := if scope || permitted then "" else "outcome outside the permitted set (output, bad_format, out_of_range, invalid_argument, unicode_error, char-padding assertion)",
+    why := if scope || specOk then "" else s!"outcome differs from the specified rendering ({specS})",
     branch := if floatScope then "out-of-scope.float-buffer(C13)" else if absScope then "out-of-scope.abs-min(C12)"
+              else if isC11 then s!"C11.{route}.{kindOf obs}.{argKind}.args={args.length}"
               else s!"{route}.{kindOf obs}.args={args.length}",
     nontrivial }
 
